@@ -36,6 +36,11 @@ def generators():
     except ImportError:
         pass
     try:
+        from . import streaming
+        gens['StreamGen'] = streaming.generate
+    except ImportError:
+        pass
+    try:
         from . import genir
         gens['IRGen'] = genir.generate
     except ImportError:
